@@ -29,6 +29,7 @@ def run(ctx):
     S.r47_termination(ctx, sc)
     S.wakeup_last(ctx, sc, 'R4.8')
     S.start_handshake(ctx, sc, 'R4.11')
+    S.accepted_command_effect(ctx, 'R4.13')
     # time-changed notifications carry non-decreasing times: every clock write is monotone (shared rule with C02)
     S.r25_monotone_clock(ctx, sc)
     S.time_changed_sites(ctx, sc, 'R4.9')
